@@ -83,7 +83,7 @@ def record(r, cid, sec, tokens):
     clean_body = [ln for ln, tok in zip(body, tokens) if tok != "junk"]
     kind, val, logs = parse_logged(text)
     ck, cval, _ = parse_logged(assemble(sec, clean_body))
-    rec = {"id": cid, "props": ["C14"], "sec": sec, "lines": list(tokens), "raised": "", "got": [[], [], []],
+    rec = {"id": cid, "props": ["C14"], "kind": "dispatch", "sec": sec, "lines": list(tokens), "raised": "", "got": [[], [], []],
            "warn": [], "clean": "", "dirty": ""}
     if kind != "chart" or ck != "chart":
         rec["raised"] = type(val if kind != "chart" else cval).__name__
@@ -104,6 +104,13 @@ def record(r, cid, sec, tokens):
 
 def run(ctx):
     r = rng("C14")
+    # language level: product of the extracted recognisers with the spec grammars, witnesses replayed on the real code
+    import lang
+    lrecs, _info = lang.run_lang(ctx, "C14")
+    lby = {x["id"]: x for x in lrecs}
+    lrej = ctx.validate(lrecs)
+    lang.report(ctx, lrej, lby)
+    lang.note_unreproduced(ctx, lrecs, lrej)
     # non-vacuity: with overlapping recognisers the outcome depends on the order in which kinds are tried
     bad = ctx.mc("MC_Dispatch", "MC_Dispatch_overlap", allow_violation=True, deadlock=False)
     if not bad.violated:
